@@ -4,7 +4,7 @@ import RF.Model.ListsItemize
 /-
 Model of `src/vertical.rs`: the alignment of struct fields, struct-literal fields and the fields of enum
 struct variants under `struct_field_align_threshold`:
-`group_aligned_items` (:275-301), `struct_field_prefix_max_min_width` (:189-205),
+`group_aligned_items` (:275-299), `struct_field_prefix_max_min_width` (:189-205),
 `rewrite_aligned_items_inner` (:207-270, incl. the one-line second pass :245-257) and
 `rewrite_with_alignment` (:111-187), statement by statement, on top of the list model
 (`RF/Model/Lists.lean` `definitiveTactic` / `writeList`, `RF/Model/ListsItemize.lean` `itemize`).
@@ -67,9 +67,26 @@ def joinLines : List (List Char) → List Char
   | [l] => l
   | l :: ls => l ++ '\n' :: joinLines ls
 
-/-- vertical.rs:284-294: the test `has_blank_line` on the text between two fields: the lines of the text but
-the first, joined again and cut into lines again, without the last one; is one of them blank? -/
+/-- `str::split('\n')` -/
+def splitNl : List Char → List (List Char)
+  | [] => [[]]
+  | c :: rest =>
+    if c = '\n' then [] :: splitNl rest
+    else match splitNl rest with
+      | l :: ls => (c :: l) :: ls
+      | [] => [[c]]
+
+/-- vertical.rs:284-296: the test `has_blank_line` on the text between two fields: of the pieces between the
+line feeds, all but the first (the rest of the field's line) and the last (the indentation of the next field):
+is one of them blank? -/
 def hasBlankLine (gap : List Char) : Bool :=
+  ((splitNl gap).drop 1).dropLast.any fun l => (trim l).isEmpty
+
+/-- The same test as the pinned tree had it before the repair `f2802f1` (lines of the text but the first,
+joined again and cut into lines again, without the last one): `str::lines` drops an empty last line, so the
+blank line in front of a field that starts at column 0 was not seen (`RF/Props/Vertical.lean`,
+`hasBlankLine_before_repair_counterexample`). -/
+def hasBlankLineBefore (gap : List Char) : Bool :=
   let snippet := joinLines ((rustLines gap).drop 1)
   (rustLines snippet).dropLast.any fun l => (trim l).isEmpty
 
@@ -151,11 +168,11 @@ def initCut (gap : List Char) : Option Nat :=
     let snippet := gap.drop (i + 1)
     if startsWith "//".toList (trimStart snippet) then
       let offset := match (rustLines snippet).head? with | some l => byteLen l | none => 0
-      some (offset + 2)
+      some (i + 1 + offset + 1)
     else if startsWith "/*".toList (trimStart snippet) then
       let commentLines := (blockEndLine (rustLines snippet)).getD 0
       let offset := byteLen (joinLines ((rustLines snippet).take (commentLines + 1)))
-      some (offset + 2)
+      some (i + 1 + offset + 1)
     else some (i + 1)
 
 /-- The last field of a group with its `post` cut at `init_last_pos`. -/
